@@ -8,4 +8,5 @@ INVARIANT SpectrumClosed
 INVARIANT TrainFromOtherFolds
 INVARIANT ReadComplete
 INVARIANT NoLeak
+INVARIANT OutcomeIsF
 CHECK_DEADLOCK FALSE
